@@ -121,7 +121,7 @@ func GenDaemon(prop string, seed uint64, tier string) *DaemonScenario {
 		sc.Net.DropPct, sc.Net.DupPct = 0, r.Range(0, 8)
 		cmds := []string{"accept", "reject", "join", "execute", "abort", "reshare_ok", "reshare_ok", "reshare_low_threshold", "reshare_high_threshold", "reshare_expired",
 			"reshare_drop_member", "reshare_leader_leaves", "reshare_unknown_remainer", "reshare_few_remainers", "reshare_few_remainers"}
-		forges := []string{"proposal_by_attacker_key", "proposal_by_other_member_key", "accept_for_someone_else", "abort_by_non_leader", "execute_by_non_leader", "mut_sender", "mut_sigbyte", "mut_terms"}
+		forges := []string{"proposal_by_attacker_key", "proposal_by_other_member_key", "proposal_with_shadow_joiner", "proposal_with_shadow_joiner", "accept_for_someone_else", "abort_by_non_leader", "execute_by_non_leader", "mut_sender", "mut_sigbyte", "mut_terms"}
 		for k := r.Range(5, 12); k > 0; k-- {
 			if prop == "C09" && r.Bool(65) || prop == "C08" && r.Bool(20) {
 				sc.DKGSteps = append(sc.DKGSteps, DKGStep{K: "forge", Node: r.Intn(sc.N), S: forges[r.Intn(len(forges))], A: r.Intn(100)})
